@@ -1,5 +1,6 @@
 mod ast;
 mod consts;
+mod references;
 mod emitter;
 pub mod error;
 mod includes;
